@@ -21,8 +21,14 @@ Import ListNotations.
 From NV Require Import lib.Corr model.Wheel.
 Open Scope Z_scope.
 
+(* monomorphic aliases: cheap to elaborate in the generated literals *)
+Definition WA (i : N) (T : Z) : op N := OAdd i T.
+Definition WV (now : Z) : op N := OAdvance now.
+Definition WP : op N := OPurge.
+
+(* obs: one entry per Purge call: item + 1, or 0 when Purge said "nothing" *)
 Inductive case :=
-| CWheel (locking : bool) (mn mx : Z) (ops : list (op N)) (obs : list (option N))
+| CWheel (locking : bool) (mn mx : Z) (ops : list (op N)) (obs : list N)
   (* the history with more than timerCacheMax recycled cells is too long for evaluation here: the harness
      evaluates the same specification (specCheck in c_wheel.go) and reports its verdict *)
 | CBulk (added returned : N) (spec_ok : bool).
@@ -79,10 +85,12 @@ Fixpoint spec_run (timing : bool) (d mx : Z) (ops : list (op N)) (obs : list (op
   end.
 
 Definition obs_eqb := list_eqb (option_eqb N.eqb).
+Definition dec_obs (x : N) : option N := if N.eqb x 0 then None else Some (N.pred x).
 
 Definition check_case (c : case) : list N :=
   match c with
-  | CWheel _ mn mx ops obs =>
+  | CWheel _ mn mx ops obs0 =>
+      let obs := map dec_obs obs0 in
       let timing := clock_okb mn None ops in
       flag 1 (negb timing || obs_eqb (trace ops (init mn mx)) obs)
       ++ flag 2 (spec_run timing mn mx ops obs None None [])
